@@ -165,6 +165,10 @@ def api_built(rng):
         p.relate_name('q') if hasattr(p, 'relate_name') else None
     if rng.random() < 0.5:
         et.create_attachment('doc').set_media_type('text/html') if rng.random() < 0.5 else et.create_attachment('bin').set_encoding_base64()
+        if rng.random() < 0.5:
+            # more attachments, created in an order that is not the alphabetical one
+            for name in rng.sample(['zz', 'aa', 'mm'], rng.randint(1, 3)):
+                et.create_attachment(name)
     if rng.random() < 0.4:
         t0 = et.create_property('t0', 'when').make_optional()
         et.set_timespan_property_name_start('t0')
